@@ -19,6 +19,7 @@ COMMON_ASSUMPTIONS = [
     "RPC granularity: every SendRequest is serialised by the hub's gate; interleavings inside one goroutine between RPCs are not explored",
     "virtual PD clock: TTL expiry is reached by moving the clock; heartbeats and lock-wait time-outs run on wall-clock timers and are kept out of the short scenarios",
     "failpoints fastBackoffBySkipSleep (back-off budgets are consumed without sleeping) and injectLiveness=reachable (no gRPC liveness probe of mock stores) are enabled",
+    "neither store model (mocktikv, the Lean store) implements CheckTxnStatus.verify_is_primary (TiKV answers PrimaryMismatch when the key named as primary carries a lock of the transaction whose primary is another key; client-go sets the flag and re-reads the lock): a transaction for which such a request was EXECUTED is not judged by the atomicity and answer oracles (`statusOnSecondary` in Driver/Hub.lean)",
 ]
 
 
